@@ -143,6 +143,9 @@ def t_loads(eng):
     gsame = SObj('Geobj', label='g')
     pulse.fields['geobj'] = gsame
     pulse2.fields['geobj'] = gsame
+    # grounded ends as an array, as Pulse.__init__ stores them (an implementation may ask pulse.ground.any ())
+    pulse.fields['ground'] = NDArr([fresh_bool('g10'), fresh_bool('g11')])
+    pulse2.fields['ground'] = NDArr([fresh_bool('g20'), fresh_bool('g21')])
     imp = fresh_cx('imp')
     imp2 = fresh_cx('imp2')
     by_pulse = lambda e, a, k: imp if a[2] is pulse else imp2
